@@ -232,6 +232,22 @@ func main() {
 			_ = wv.Close()
 		}
 	}
+	// the WAF pool (phrase lists / regex texts / data-set names made to collide in the pattern cache):
+	// solo outcomes, each member built alone and closed
+	poolSpecs, perr := c06lib.PoolSpecs(*tmp)
+	if perr != nil {
+		fail("setup", "pool: "+perr.Error(), nil)
+	}
+	poolSolo := make([][]int, len(poolSpecs))
+	for i, sp := range poolSpecs {
+		wv, o, err := c06lib.BuildAndProbe(sp)
+		if err != nil {
+			fail("setup", err.Error(), nil)
+			continue
+		}
+		poolSolo[i] = o
+		_ = wv.Close()
+	}
 	soloLines := countLines()
 	if s := c06lib.SpareSlotsWritten(waf); s != "" {
 		fail("shared-rule-written", "after the sequential pass: "+s, nil)
@@ -327,6 +343,27 @@ func main() {
 			n := 0
 			for time.Now().Before(deadline) {
 				v := 1 + r.Intn(variants-1)
+				if len(poolSpecs) > 0 && n%2 == 1 {
+					// a pool member built, probed and closed while the others do the same
+					guard("pool builder", func() {
+						pi := r.Intn(len(poolSpecs))
+						wv, o, err := c06lib.BuildAndProbe(poolSpecs[pi])
+						if err != nil {
+							fail("error", err.Error(), nil)
+							return
+						}
+						if poolSolo[pi] != nil && !c06lib.SameInts(o, poolSolo[pi]) {
+							fail("waf-outcome-depends-on-other-wafs", fmt.Sprintf("pool WAF %q built next to other WAFs: verdicts %v, alone %v (probes %v)", poolSpecs[pi].Name, o, poolSolo[pi], c06lib.PoolProbes), nil)
+						}
+						if r.Intn(3) == 0 {
+							runtime.Gosched()
+						}
+						_ = wv.Close()
+					})
+					n++
+					buildDone.Add(1)
+					continue
+				}
 				guard("builder", func() {
 					wv, err := c06lib.NewWAF(c06lib.Directives("", v))
 					if err != nil {
